@@ -33,3 +33,34 @@ def replay(model, obligation):
         if murmur3.truncate_int64(x) != exp:
             fails.append('truncate_int64(%d) = %d, expected %d' % (x, murmur3.truncate_int64(x), exp))
     return {'reproduced': bool(fails), 'detail': '; '.join(fails[:3]) or 'concrete search found no disagreement with Cassandra\'s hash'}
+
+
+def replay_helpers(model, obligation):
+    """rotl64 / fmix of the real module at the counter-model's operand (and at operands congruent to it modulo 2**64: the callers pass ints that
+    are not reduced), against the 64-bit reference."""
+    from cassandra import murmur3
+    M = 2 ** 64
+    fails = []
+
+    def val(name):
+        v = model.get(name, 0)
+        try:
+            return int(v, 0) if isinstance(v, str) else int(v)
+        except (TypeError, ValueError):
+            return 0
+    if '/rotl64/' in obligation:
+        x0 = val('x') % M
+        for x in (x0, x0 - M, x0 + M, 1, M - 1, 0x8000000000000001):
+            for r in (27, 31, 33):
+                want = ((x % M) << r | (x % M) >> (64 - r)) % M
+                got = murmur3.rotl64(x, r) % M
+                if got != want:
+                    fails.append('rotl64(%#x, %d) = %#x in the low 64 bits, a 64-bit rotation gives %#x' % (x, r, got, want))
+    else:
+        k0 = val('k') % M
+        for k in (k0, k0 - M, k0 + M, 1, M - 1, 0x8000000000000001, 0xdeadbeefcafebabe):
+            want = S._fmix(k % M)
+            got = murmur3.fmix(k) % M
+            if got != want % M:
+                fails.append('fmix(%#x) = %#x in the low 64 bits, MurmurHash3 fmix64 gives %#x' % (k, got, want % M))
+    return {'reproduced': bool(fails), 'detail': '; '.join(fails[:3]) or 'no disagreement with the 64-bit reference at the model operand'}
